@@ -215,14 +215,54 @@ def classify(c, pi):
     if not c["hascond"] or not first_key or c["condtags"] is None:
         return None
     ct = c["condtags"]
+    if c["label"] == "parenfree" and or_directly_under_and(c["cond"]) and todays_and_reading(c, m["tagkeys"]):
+        return "latent-and"    # outside the parser's image; explained by today's AND reading before any OR signature is tried
     matches = [i for i, ts in enumerate(ct) if point_matches(p, ts)]
     if not matches and or_with_one_unconstrained_operand(c["cond"], m["tagkeys"]):
         return F_OR
     if len(ct) >= 2 and matches and matches[0] >= 1:
         return F_ACC
-    if c["label"] == "parenfree" and or_directly_under_and(c["cond"]) and merged_alternatives(ct):
+    if c["label"] == "parenfree" and or_directly_under_and(c["cond"]) and todays_and_reading(c, m["tagkeys"]):
         return "latent-and"
     return None
+
+
+def py_cond_tags(n, tagkeys, v_or, v_and):
+    """getConditionTags as in Model.cond_tags (None = no constraint)"""
+    op = n["op"]
+    if op == "eqstr":
+        return [[(n["k"], n.get("v", ""))]] if is_tag_eq(n, tagkeys) else None
+    if op == "and":
+        l, r = py_cond_tags(n["l"], tagkeys, v_or, v_and), py_cond_tags(n["r"], tagkeys, v_or, v_and)
+        if l is None:
+            return r
+        if r is None:
+            return l
+        if v_and:
+            return [a + b for a in l for b in r]
+        return [a + [x for b in r for x in b] for a in l]
+    if op == "or":
+        l, r = py_cond_tags(n["l"], tagkeys, v_or, v_and), py_cond_tags(n["r"], tagkeys, v_or, v_and)
+        if l is not None and r is not None:
+            return l + r
+        if v_or:
+            return None
+        return r if l is None else l
+    return None
+
+
+def todays_and_reading(c, tagkeys):
+    """signature of the latent AND-with-alternatives class: what getConditionTags returned on this (paren-free) tree is exactly
+    the reading in which an AND appends every alternative of its right operand to each left set, and the cross product differs"""
+    got = c["condtags"]
+    if got is None:
+        return False
+    norm = lambda tss: sorted(sorted((k, v) for k, v in ts) for ts in tss)
+    for v_or in (True, False):
+        cur, rep = py_cond_tags(c["cond"], tagkeys, v_or, False), py_cond_tags(c["cond"], tagkeys, v_or, True)
+        if cur is not None and norm(cur) == norm(got) and (rep is None or norm(rep) != norm(got)):
+            return True
+    return False
 
 
 def merged_alternatives(ct):
@@ -698,6 +738,9 @@ def main(ck):
                                          "matching row is skipped: %s | cond: %s | alive at write %s, at query %s, hard-write %s" % (
                                              msg.split(": ", 1)[1], c["condtext"], g[0].get("walive"), g[0].get("alive"), cf.get("hardwrite")))
                     continue
+            if msg.startswith("hintprune: hint ") and classify(c, int(msg.split()[4])) == "latent-and":
+                latent += 1   # the hinted query goes through the same getConditionTags
+                continue
             if msg.startswith("hintprune: hint "):
                 # signature of C11-hint-query-hashes-range-sharded: hinted query, range sharding in force (no database key),
                 # the row lies in a group with at least two shards
